@@ -40,14 +40,15 @@ Theorem C03_add_total : forall a b, canonp (rem a) -> canonp (rem b) ->
 Proof. exact geometric_add_total. Qed.
 Print Assumptions C03_add_total.
 
-(* non-vacuity: the hypotheses are met by a concrete non-trivial angle *)
-Example C03_canon_inhabited : Canon (new (of_Z 3) (of_Z 4)) /\ blade (new (of_Z 3) (of_Z 4)) = 1%Z.
+(* non-vacuity: the hypotheses are met by a concrete non-trivial angle (blade 1, remainder the double
+   nearest pi/4); adding it to itself lands on the quarter-turn boundary and carries: blade 1+1+1, remainder 0 *)
+Example C03_canon_inhabited :
+  let a := {| rem := of_bits 4605249457297304856; blade := 1 |} in
+  Canon a /\ (to_bits (rem (geometric_add a a)), blade (geometric_add a a)) = (0%Z, 3%Z).
 Proof.
-split; [|vm_compute; reflexivity].
-split; [|vm_compute; discriminate].
-split. reflexivity.
-rewrite Qval, E10val. vm_compute (rem (new (of_Z 3) (of_Z 4))). unfold B2R, F2R.
-cbv -[IZR Rmult Rinv Rle Rlt Rminus Rdiv Rplus Ropp]. lra.
+cbv zeta. split; [|vm_compute; reflexivity].
+split; [|cbn [blade]; discriminate].
+exact quarter_pi_canon.
 Qed.
 
 (* associative up to four addition tolerances (each association is within two of the real sum) *)
